@@ -13,6 +13,7 @@ import (
 type intrinsic func(e *Exec, th *Thread, args []Value) Value
 
 var intrinsics map[string]intrinsic
+var intrinsicsLate []func()
 
 func (e *Exec) lookupIntrinsic(fn *ssa.Function) intrinsic {
 	name := fn.String()
@@ -621,6 +622,9 @@ func init() {
 	registerTimeCtx()
 	registerJSON()
 	registerURL()
+	for _, f := range intrinsicsLate {
+		f()
+	}
 }
 
 // net/url is modelled as an opaque token: Parse stores the text in Path (or
